@@ -9,6 +9,10 @@ package tar
 // every time the extractor asks for the next header, and once more when Extract has returned.  Every snapshot
 // is compared with the file system the model predicts at that point; the returned error with the model's
 // error class.  Independently of the model, the part of the tree outside T must never change (Confined).
+// A behaviour may continue (field "more") with further Extract calls on the SAME Extractor value, each with
+// its own target: before each of them the harness changes mode/mtime of the previous target's objects as the
+// model says (the owner of that tree went on using it), and the call is checked in the same way with respect
+// to ITS target and the tree at ITS start.  A file entry with content "trunc" is a body the stream ends in.
 
 import (
 	stdtar "archive/tar"
@@ -54,17 +58,25 @@ type c38Step struct {
 	Err  string  `json:"err"`
 	Diff []c38PN `json:"diff"`
 }
+type c38Call struct {
+	Tgt     []string  `json:"tgt"`
+	Age     []c38PN   `json:"age"`
+	Entries []c38Hdr  `json:"entries"`
+	Ideal   []c38Step `json:"ideal"`
+}
 type c38Beh struct {
 	V       string      `json:"v"`
 	Init    []c38PN     `json:"init"`
 	Entries []c38Hdr    `json:"entries"`
 	Ideal   []c38Step   `json:"ideal"`
 	Dev     [][]c38Step `json:"dev"`
+	More    []c38Call   `json:"more"`
 }
 
 var (
 	c38TimeP  = time.Date(2001, 1, 1, 0, 0, 0, 0, time.UTC) // "p": pre-existing objects
 	c38TimeT1 = time.Date(2005, 5, 5, 5, 5, 5, 0, time.UTC) // "t1": the archive's mtime
+	c38TimeQ  = time.Date(2010, 10, 10, 10, 10, 10, 0, time.UTC) // "q": set by the owner of a target between two calls
 )
 
 // ---- projection: model tokens <-> real values -------------------------------------------------
@@ -158,6 +170,8 @@ func c38Snapshot(base string, started time.Time) (map[string]c38Node, error) {
 			n.T = "p"
 		case mt.Equal(c38TimeT1):
 			n.T = "t1"
+		case mt.Equal(c38TimeQ):
+			n.T = "q"
 		case !mt.Before(started.Add(-2*time.Second)) && mt.Before(time.Now().Add(2*time.Second)):
 			n.T = "n"
 		default:
@@ -202,19 +216,48 @@ func c38Snapshot(base string, started time.Time) (map[string]c38Node, error) {
 	return out, walk(base, "/")
 }
 
-// outside projection: everything not at/below /w/t; the mtime of /w is masked (creating T updates it)
-func c38Outside(s map[string]c38Node) map[string]c38Node {
+// outside projection: everything not at/below the target (/w/t in the first call); the mtime of the target's
+// parent is masked (creating the target updates it)
+func c38Outside(s map[string]c38Node, tgt []string) map[string]c38Node {
 	o := map[string]c38Node{}
+	tk, pk := c38Key(tgt), c38Key(tgt[:len(tgt)-1])
 	for k, n := range s {
-		if k == "/w/t" || strings.HasPrefix(k, "/w/t/") {
+		if k == tk || strings.HasPrefix(k, tk+"/") {
 			continue
 		}
-		if k == "/w" {
+		if k == pk {
 			n.T = "-"
 		}
 		o[k] = n
 	}
 	return o
+}
+
+// c38Age applies the metadata changes made between two calls (model field "age": mode and mtime of objects)
+func c38Age(base string, age []c38PN) error {
+	for _, x := range age {
+		p := filepath.Join(append([]string{base}, x.P...)...)
+		if x.N.K != "link" {
+			if err := os.Chmod(p, os.FileMode(x.N.M)); err != nil {
+				return err
+			}
+		}
+		var mt time.Time
+		switch x.N.T {
+		case "q":
+			mt = c38TimeQ
+		case "p":
+			mt = c38TimeP
+		case "t1":
+			mt = c38TimeT1
+		default:
+			return fmt.Errorf("age: mtime class %q", x.N.T)
+		}
+		if err := files.UpdateModTime(p, mt); err != nil { // utimensat(AT_SYMLINK_NOFOLLOW)
+			return err
+		}
+	}
+	return nil
 }
 
 func c38DiffMaps(got, want map[string]c38Node) string {
@@ -305,6 +348,11 @@ func c38Archive(base string, es []c38Hdr) ([]byte, map[int]int) {
 		case "dir":
 			buf = append(buf, c38Block(hname, stdtar.TypeDir, e.Mode, 0, mtime, "")...)
 		case "file":
+			if e.C == "trunc" { // the stream ends inside the body of this entry
+				buf = append(buf, c38Block(hname, stdtar.TypeReg, e.Mode, 100, mtime, "")...)
+				buf = append(buf, "truncated!"...)
+				return buf, bounds
+			}
 			buf = append(buf, c38Block(hname, stdtar.TypeReg, e.Mode, int64(len(e.C)), mtime, "")...)
 			buf = c38Pad(append(buf, e.C...))
 		case "link":
@@ -355,6 +403,8 @@ func c38Class(err error) string {
 		return "dirsym"
 	case errors.Is(err, stdtar.ErrHeader):
 		return "tar"
+	case errors.Is(err, io.ErrUnexpectedEOF):
+		return "trunc"
 	case errors.As(err, &en):
 		switch en {
 		case syscall.ENOENT:
@@ -391,12 +441,9 @@ type c38Obs struct {
 	err   string
 }
 
-// c38Check compares the observation with one predicted step sequence; "" = agrees.
-func c38Check(b *c38Beh, steps []c38Step, o *c38Obs) (int, string) {
-	model := map[string]c38Node{}
-	for _, x := range b.Init {
-		model[c38Key(x.P)] = x.N
-	}
+// c38Check compares the observation of one call with one predicted step sequence, starting from (and
+// updating) the model file system; "" = agrees.
+func c38Check(model map[string]c38Node, steps []c38Step, o *c38Obs) (int, string) {
 	if len(o.snaps) != len(steps) {
 		return len(steps), fmt.Sprintf("extractor consumed %d headers before returning, model %d (error %q, model %q)",
 			len(o.snaps)-1, len(steps)-1, o.err, steps[len(steps)-1].Err)
@@ -452,47 +499,102 @@ func c38Run(b *c38Beh, scratch string) M {
 	if d := c38DiffMaps(before, want0); d != "" {
 		return M{"ok": false, "what": "harness: initial file system not realised: " + d, "harness": true}
 	}
-	data, bounds := c38Archive(base, b.Entries)
-	obs := &c38Obs{}
-	var snapErr error
-	take := func(int) {
-		s, err := c38Snapshot(base, started)
-		if err != nil && snapErr == nil {
-			snapErr = err
+	te := &Extractor{}
+	// one Extract call of the (same) Extractor value; returns the observation and the model-free verdict
+	call := func(tgt []string, entries []c38Hdr, before map[string]c38Node) (*c38Obs, string, error) {
+		data, bounds := c38Archive(base, entries)
+		obs := &c38Obs{}
+		var snapErr error
+		take := func(int) {
+			s, err := c38Snapshot(base, started)
+			if err != nil && snapErr == nil {
+				snapErr = err
+			}
+			obs.snaps = append(obs.snaps, s)
 		}
-		obs.snaps = append(obs.snaps, s)
-	}
-	te := &Extractor{Path: filepath.Join(base, "w", "t")}
-	xerr := te.Extract(&c38Reader{data: data, bounds: bounds, seen: map[int]bool{}, hook: take})
-	take(-1)
-	obs.err = c38Class(xerr)
-	if snapErr != nil {
-		return M{"ok": false, "what": "harness: snapshot: " + snapErr.Error(), "harness": true}
-	}
-	// the property itself, model-free: nothing outside T changed at any observation point
-	escape := ""
-	for i, s := range obs.snaps {
-		if d := c38DiffMaps(c38Outside(s), c38Outside(before)); d != "" {
-			escape = fmt.Sprintf("OUTSIDE OF TARGET CHANGED (observation %d of %d, error %q): %s", i+1, len(obs.snaps), obs.err, d)
-			break
+		te.Path = filepath.Join(append([]string{base}, tgt...)...)
+		xerr := te.Extract(&c38Reader{data: data, bounds: bounds, seen: map[int]bool{}, hook: take})
+		take(-1)
+		obs.err = c38Class(xerr)
+		if snapErr != nil {
+			return nil, "", snapErr
 		}
-	}
-	step, what := c38Check(b, b.Ideal, obs)
-	if what == "" && escape == "" {
-		return M{"ok": true}
-	}
-	if what == "" {
-		what = "model agrees but " + escape // cannot happen unless the model itself escapes
-	} else if escape != "" {
-		what = escape + " | " + what
-	}
-	rec := M{"ok": false, "step": step, "what": what, "escape": escape != ""}
-	if len(b.Dev) == 1 {
-		if _, w2 := c38Check(b, b.Dev[0], obs); w2 == "" {
-			rec["dev"] = "Dev_C38_DeferredMetaByPath"
+		// the property itself, model-free: nothing outside the target changed at any observation point
+		for i, s := range obs.snaps {
+			if d := c38DiffMaps(c38Outside(s, tgt), c38Outside(before, tgt)); d != "" {
+				return obs, fmt.Sprintf("OUTSIDE OF TARGET %s CHANGED (observation %d of %d, error %q): %s", c38Key(tgt), i+1, len(obs.snaps), obs.err, d), nil
+			}
 		}
+		return obs, "", nil
 	}
-	return rec
+	tgt := []string{"w", "t"}
+	obs, escape, err := call(tgt, b.Entries, before)
+	if err != nil {
+		return M{"ok": false, "what": "harness: snapshot: " + err.Error(), "harness": true}
+	}
+	model := map[string]c38Node{}
+	for k, n := range want0 {
+		model[k] = n
+	}
+	step, what := c38Check(model, b.Ideal, obs)
+	if len(b.More) == 0 || what != "" || escape != "" {
+		if what == "" && escape == "" {
+			return M{"ok": true}
+		}
+		if what == "" {
+			what = "model agrees but " + escape // cannot happen unless the model itself escapes
+		} else if escape != "" {
+			what = escape + " | " + what
+		}
+		rec := M{"ok": false, "step": step, "what": what, "escape": escape != ""}
+		if len(b.Dev) == 1 {
+			m2 := map[string]c38Node{}
+			for k, n := range want0 {
+				m2[k] = n
+			}
+			if _, w2 := c38Check(m2, b.Dev[0], obs); w2 == "" {
+				rec["dev"] = "Dev_C38_DeferredMetaByPath"
+			}
+		}
+		return rec
+	}
+	// further calls on the same Extractor value
+	nsteps := len(b.Ideal)
+	for ci, c := range b.More {
+		if err := c38Age(base, c.Age); err != nil {
+			return M{"ok": false, "what": "harness: age: " + err.Error(), "harness": true}
+		}
+		for _, d := range c.Age {
+			model[c38Key(d.P)] = d.N
+		}
+		before, err := c38Snapshot(base, started)
+		if err != nil {
+			return M{"ok": false, "what": "harness: snapshot: " + err.Error(), "harness": true}
+		}
+		if d := c38DiffMaps(before, model); d != "" {
+			return M{"ok": false, "what": fmt.Sprintf("harness: file system before call %d not as in the model: %s", ci+2, d), "harness": true}
+		}
+		obs, escape, err := call(c.Tgt, c.Entries, before)
+		if err != nil {
+			return M{"ok": false, "what": "harness: snapshot: " + err.Error(), "harness": true}
+		}
+		step, what := c38Check(model, c.Ideal, obs)
+		if what != "" || escape != "" {
+			arch := []string{}
+			for _, e := range c.Entries {
+				arch = append(arch, fmt.Sprintf("%s %s mode=%o mtime=%s", strings.Join(e.Name, "/"), e.Type, e.Mode, e.T))
+			}
+			pre := fmt.Sprintf("Extract call %d on the same Extractor value, target %s, archive [%s]: ", ci+2, c38Key(c.Tgt), strings.Join(arch, " ; "))
+			if what == "" {
+				what = "model agrees but " + escape
+			} else if escape != "" {
+				what = escape + " | " + what
+			}
+			return M{"ok": false, "step": nsteps + step, "what": pre + what, "escape": escape != ""}
+		}
+		nsteps += len(c.Ideal)
+	}
+	return M{"ok": true}
 }
 
 func TestVerifC38(t *testing.T) {
